@@ -12,7 +12,7 @@ for d in sorted(glob.glob(os.path.join(ROOT, 'seeded', '*'))):
     first = m['needs'].strip().splitlines()
     title = next((l.strip('# ').strip() for l in first if l.strip()), '')[:100]
     outcome = '; '.join(f"{k}: {v}" for k, v in m['checks_run'].items())
-    if 'first missed' in outcome or 'first no-failing' in outcome or 'missed by' in outcome:
+    if 'first missed' in outcome or 'first no-failing' in outcome or 'missed by' in outcome or 'first reported only' in outcome:
         missed += 1
     rows.append((name, ', '.join(files), title, outcome))
 n = len(rows)
@@ -31,9 +31,15 @@ and is kept under `seeded/<property>-<id>/` (`patch.diff`, the demonstration, `m
 against the checks with `tools/mutcheck.sh <patch> <ID>…` (scratch worktree + `VERIF_REPO`; `/repo` itself
 is never touched).
 
-Result: **all {n} are caught by the check of the property they target (exit 1 with a concrete failing
-input as the replay).** {missed} were *missed* at first; each miss led to a strengthening of the machinery
-(never to a loosened check), named in the last column and summarised below the table.
+Rounds 3-5 told the authors that a large randomized differential test of the obvious paths exists (round 3: aim at rare
+options, state that survives calls, real-process timing, loop boundaries; round 5: act through helper modules the
+property's record does not name, or through two cooperating edits in two files).
+
+Result: **all {n} are caught (exit 1 with a concrete failing input as the replay), {n} - 1 of them by the check of the
+property they target**; the one exception is `C11-r5m2` (a coordinator spin that needs a Ctrl-C: interrupts are outside
+C11's quantifier and the change is caught by C14, which owns them). {missed} were *missed* at first by the targeted
+check; each miss led to a strengthening of the machinery (never to a loosened check), named in the last column and
+summarised below the table.
 
 | seeded change | files | what it is (first line of the author's notes) | outcome |
 |---|---|---|---|
